@@ -392,6 +392,16 @@ class SockRunner:
             self._spawn(do_reset())
         elif kind == "subraise":
             self.sub_raise = bool(st[1])
+        elif kind == "bp":
+            # transport back-pressure: while on, writer.drain() blocks (the transport called
+            # pause_writing() on the stream protocol); also applied to connections opened meanwhile
+            on = bool(st[1])
+            net.backpressure = on
+            cur = net.current()
+            if cur is not None:
+                proto = cur.transport.get_protocol()
+                (proto.pause_writing if on else proto.resume_writing)()
+            net.on_open = (lambda conn: conn.transport.get_protocol().pause_writing()) if on else None
         else:
             raise ValueError(st)
         evs = self._collect()
